@@ -359,6 +359,15 @@ pub fn gen(rng: &mut Rng, n: usize, sink: &mut Sink, focus: &str) {
                         let c = if rng.chance(1, 3) { operator.clone() } else { user(rng.below(6) as u8) };
                         sink.exec(&format!("tx {} {} withdraw 0 - {}", hex::encode(&c), hex::encode(&gaddr), args(&[c.clone(), nat(100)])));
                     }
+                    4 if rng.chance(1, 3) => {
+                        // the owner upgrades the contract (same code; `upgrade()` is empty): nothing may change,
+                        // also while dispatches are in flight
+                        sink.exec(&format!("tx {} {} upgradeContract 0 - {}", hex::encode(user(0)), hex::encode(&gaddr), args(&[b"governance".to_vec(), vec![5u8, 6u8]])));
+                        let p2 = pool[k].clone();
+                        sink.exec(&format!("query {} getProposalEta {}", hex::encode(&gaddr), args(&[p2.target.clone(), p2.call_data.clone(), nat(p2.value)])));
+                        sink.exec(&format!("query {} isOperatorProposalApproved {}", hex::encode(&gaddr), args(&[p2.target.clone(), p2.call_data.clone(), nat(p2.value)])));
+                        sink.exec(&format!("query {} getOperator -", hex::encode(&gaddr)));
+                    }
                     _ => {
                         now += *rng.pick(&[1u64, 50, 99, 100, 101, 1000]);
                         sink.exec(&format!("time {}", now));
